@@ -15,3 +15,7 @@ check("C04",
       "Every RFC-valid frame stream up to depth 4 (5 thorough) generated from the message state machine (data fragments incl. empty ones, interleaved control frames, both sides, masked per side) is pushed through 12 consumer drivers (Reader loop with caller buffers 1/2/7/512, Discard after 0/1 bytes, NextReader, ReadMessage, ReadData and the Client/Server Data/Text/Binary variants) under uniform transport chunk sizes inf/1/2/3/5; for depth<=2 (3) every possible split of the transport into reads is explored with a state key that fingerprints the complete live Reader, and for the helpers that hide their Reader every placement of up to 2 (3) short reads. Oracle: the list-of-messages reference model.",
       "Streams are exhaustive only up to the stated depth and payload alphabet (0/1/3-byte data payloads, 2/0/125-byte controls); the state-key soundness rests on the fingerprint covering every field reachable from the Reader plus the driver's own observations.",
       "bounded-exhaustive history enumeration + exhaustive environment (short-read) choice tree with state-key pruning, on the real code against a reference model", "4/C04")
+check("C05",
+      "Every valid prefix (message open or closed) up to depth 2 (3 thorough) x every frame header of Fin x Rsv{0,1,2,4,7} x OpCode 0..15 x Masked x Len{0,1,125,126,65536} that the RFC rule list rejects in the state left by the prefix, both sides, extended or not, followed by marker payload and a canary message, through Reader / ReadMessage / ReadData under chunk sizes inf and 1; plus the MaxFrameSize grid (5 limits x 5 announced lengths x in/out of a message). Oracle: prefix delivered as the model says, then a ProtocolError naming a broken rule (or ErrFrameTooLarge), no marker/canary byte anywhere, source not read past the offending header.",
+      "Depth and alphabet as stated; the rule list is refmodel.CheckRules.",
+      "bounded-exhaustive history enumeration (valid prefix x invalid extension) on the real code against a reference model", "4/C05")
